@@ -199,12 +199,62 @@ Theorem C09_constructor_rejects : C09_constructor_rejects_full.
 Proof. exact constructor_rejects_full. Qed.
 Print Assumptions C09_constructor_rejects.
 
-(* form conversion: decided by correspondence + oracle only *)
-Definition C09_to_sa_to_product_roundtrip_full : Prop :=
-  forall (d : ddp Q) d' d'', d_prod d <> None -> ddp_ok d ->
-  to_sa_pair_form d = COk d' -> to_product_form d' = COk d'' ->
-  forall s a j, lookup_pair d s a = Some j -> gete (d_R d) j <> NegInf ->
-    exists j', lookup_pair d'' s a = Some j' /\ gete (d_R d'') j' = gete (d_R d) j /\ getrow (d_Q d'') j' = getrow (d_Q d) j.
+(* ---- form conversion ---- *)
+(* the sa-pair constructor (sorted or unsorted input) stores exactly the input pairs, each retrievable by
+   (state, action) with its reward and transition row *)
+Theorem C09_constructor_stores_pairs :
+  forall n sidx aidx (R : list (ext Q)) Qm beta d',
+  mk_sa n sidx aidx R Qm beta = COk d' ->
+  (forall j, (j < length sidx)%nat ->
+     exists j', lookup_pair d' (getn sidx j) (getn aidx j) = Some j' /\
+                gete (d_R d') j' = gete R j /\ getrow (d_Q d') j' = getrow Qm j) /\
+  (forall s a j', lookup_pair d' s a = Some j' ->
+     exists j, (j < length sidx)%nat /\ getn sidx j = s /\ getn aidx j = a /\
+               gete (d_R d') j' = gete R j /\ getrow (d_Q d') j' = getrow Qm j).
+Proof. intros n sidx aidx R Qm beta d' H. split; [exact (mk_sa_lookup _ _ _ _ _ _ _ H)|intros s a j'; exact (mk_sa_lookup_inv _ _ _ _ _ _ _ s a j' H)]. Qed.
+Print Assumptions C09_constructor_stores_pairs.
+
+(* to_sa_pair_form of a product ddp keeps exactly the pairs with a finite reward, with their rewards and rows *)
+Theorem C09_to_sa_pair_form_preserves :
+  forall n m (Rt : list (list (ext Q))) Qt beta d d',
+  mk_prod n m Rt Qt beta = COk d -> to_sa_pair_form d = COk d' ->
+  (forall s a r, (s < n)%nat -> (a < m)%nat -> nth a (nth s Rt []) NegInf = Fin r ->
+     exists j', lookup_pair d' s a = Some j' /\ gete (d_R d') j' = Fin r /\ getrow (d_Q d') j' = nth a (nth s Qt []) []) /\
+  (forall s a j', lookup_pair d' s a = Some j' ->
+     (s < n)%nat /\ (a < m)%nat /\ exists r, nth a (nth s Rt []) NegInf = Fin r /\ gete (d_R d') j' = Fin r /\
+                                         getrow (d_Q d') j' = nth a (nth s Qt []) []).
+Proof. intros n m Rt Qt beta d d' H1 H2. split; [exact (to_sa_preserves _ _ _ _ _ _ _ H1 H2)|exact (to_sa_feasible_only _ _ _ _ _ _ _ H1 H2)]. Qed.
+Print Assumptions C09_to_sa_pair_form_preserves.
+
+(* to_product_form of an sa-pair ddp: R[s,a], Q[s,a,:] of pair (s,a) if present, else -inf and a zero row *)
+Theorem C09_to_product_form_entries :
+  forall d' d'' : ddp Q, d_prod d' = None -> to_product_form d' = COk d'' ->
+  forall s a, (s < d_n d')%nat -> (a < S (list_max (d_aidx d')))%nat ->
+    lookup_pair d'' s a = Some (s * S (list_max (d_aidx d')) + a)%nat /\
+    gete (d_R d'') (s * S (list_max (d_aidx d')) + a) = match lookup_pair d' s a with Some j => gete (d_R d') j | None => NegInf end /\
+    getrow (d_Q d'') (s * S (list_max (d_aidx d')) + a) = match lookup_pair d' s a with Some j => getrow (d_Q d') j | None => repeat 0 (d_n d') end.
+Proof. exact to_product_entries. Qed.
+Print Assumptions C09_to_product_form_entries.
+
+(* round trip product -> sa-pair -> product: the identity on feasible pairs, and no feasible pair is created *)
+Theorem C09_to_sa_to_product_roundtrip :
+  forall n m (Rt : list (list (ext Q))) Qt beta d d' d'',
+  mk_prod n m Rt Qt beta = COk d -> to_sa_pair_form d = COk d' -> to_product_form d' = COk d'' ->
+  (forall s a r, (s < n)%nat -> (a < m)%nat -> nth a (nth s Rt []) NegInf = Fin r ->
+     exists j'', lookup_pair d'' s a = Some j'' /\ gete (d_R d'') j'' = Fin r /\ getrow (d_Q d'') j'' = nth a (nth s Qt []) []) /\
+  (forall s a j'' r, lookup_pair d'' s a = Some j'' -> gete (d_R d'') j'' = Fin r ->
+     (s < n)%nat /\ (a < m)%nat /\ nth a (nth s Rt []) NegInf = Fin r /\ getrow (d_Q d'') j'' = nth a (nth s Qt []) []).
+Proof.
+  intros n m Rt Qt beta d d' d'' H1 H2 H3.
+  split; [exact (roundtrip_feasible _ _ _ _ _ _ _ _ H1 H2 H3)|exact (roundtrip_feasible_only _ _ _ _ _ _ _ _ H1 H2 H3)].
+Qed.
+Print Assumptions C09_to_sa_to_product_roundtrip.
+
+Example ex_roundtrip :
+  exists d d' d'',
+    mk_prod 2 2 [[Fin 5; Fin 10]; [Fin (-1); NegInf]] [[[1#2;1#2]; [0;1]]; [[0;1]; [1#2;1#2]]] (19#20) = COk d /\
+    to_sa_pair_form d = COk d' /\ to_product_form d' = COk d'' /\ d_R d'' = d_R d /\ length (d_R d') = 3%nat.
+Proof. eexists. eexists. eexists. vm_compute. repeat split. Qed.
 
 (* ---- the hypotheses are satisfiable: Puterman's example with an extra -inf pair and a tie ---- *)
 Definition ex_d : ddp Q :=
